@@ -627,6 +627,74 @@ def scan_docstring_literals():
     return rows
 
 
+# ---------------------------------------------------------------------------------------------- what the metadata templates read
+METADATA_TEMPLATES = ["pyproject.toml.jinja", "pyproject_ruff.toml.jinja", "setup.py.jinja", "README.md.jinja", ".gitignore.jinja"]
+
+
+def scan_metadata_reads():
+    """every free variable a metadata template reads, with its attribute / item chain: (template, dotted expression).
+    Names the template binds itself ({% set %}, loop variables, macro parameters) are not free. A dynamic use (getattr-like
+    filters, a free name passed whole to a call) is reported with the bare name, which is outside every documented set
+    for context objects such as `openapi` or `config`."""
+    import jinja2
+    from jinja2 import nodes, meta
+    tdir = os.path.join(PKG, "templates")
+    env = jinja2.Environment(loader=jinja2.FileSystemLoader(tdir), trim_blocks=True, lstrip_blocks=True, extensions=["jinja2.ext.loopcontrols"], keep_trailing_newline=True)
+    rows = []
+    present = sorted(f for f in os.listdir(tdir) if os.path.isfile(os.path.join(tdir, f)))
+    # the templates rendered by Project._build_metadata / _build_pyproject_toml / _build_setup_py (+ includes): fixed list, checked against the directory
+    for f in METADATA_TEMPLATES:
+        if f not in present:
+            rows.append((f, UNKNOWN + " template missing"))
+            continue
+        tree = env.parse(open(os.path.join(tdir, f), encoding="utf-8").read())
+        free = meta.find_undeclared_variables(tree)
+        for inc in meta.find_referenced_templates(tree):
+            if inc is None or inc not in METADATA_TEMPLATES:
+                rows.append((f, UNKNOWN + " includes " + str(inc)))
+
+        def chain(node):
+            if isinstance(node, nodes.Name):
+                return node.name if node.name in free else None
+            if isinstance(node, nodes.Getattr):
+                b = chain(node.node)
+                return None if b is None else b + "." + node.attr
+            if isinstance(node, nodes.Getitem) and isinstance(node.arg, nodes.Const):
+                b = chain(node.node)
+                return None if b is None else b + "." + str(node.arg.value)
+            return None
+
+        def walk(node, parent_is_chain):
+            if isinstance(node, (nodes.Name, nodes.Getattr, nodes.Getitem)) and not parent_is_chain:
+                c = chain(node)
+                if c is not None and getattr(node, "ctx", "load") == "load":
+                    rows.append((f, c))
+            for child in node.iter_child_nodes():
+                walk(child, isinstance(node, (nodes.Getattr, nodes.Getitem)) and child is node.node and chain(node) is not None)
+        walk(tree, False)
+    # the list must be what the metadata writers of Project actually load (string constants ending in .jinja in those functions)
+    ptree = ast.parse(open(os.path.join(PKG, "__init__.py"), encoding="utf-8").read())
+    used = set()
+    for n in ast.walk(ptree):
+        if isinstance(n, ast.FunctionDef) and n.name in ("_build_metadata", "_build_pyproject_toml", "_build_setup_py"):
+            for c in ast.walk(n):
+                if isinstance(c, ast.Constant) and isinstance(c.value, str) and c.value.endswith(".jinja"):
+                    used.add(c.value)
+    for f in sorted(used - set(METADATA_TEMPLATES)):
+        rows.append((f, UNKNOWN + " metadata writer loads an unlisted template"))
+    if not used:
+        rows.append(("__init__.py", UNKNOWN + " no template constant found in the metadata writers"))
+    # any other template whose name looks like metadata but is not in the list
+    for f in present:
+        if f not in METADATA_TEMPLATES and (f.endswith(".toml.jinja") or f.endswith(".md.jinja") or f.startswith("setup") or f.startswith(".")):
+            rows.append((f, UNKNOWN + " unlisted metadata template"))
+    out, seen = [], set()
+    for r in rows:
+        if r not in seen:
+            seen.add(r); out.append(r)
+    return out
+
+
 # ---------------------------------------------------------------------------------------------- output
 def collect():
     cfg_fields, cf_fields = config_facts()
@@ -648,7 +716,7 @@ def collect():
             out.append(r)
     return {"reads": out, "config_fields": cfg_fields, "configfile_fields": cf_fields, "readme_options": readme_options(),
             "merge": merge_facts(cfg_fields), "py_space": [c for c in range(0x110000) if chr(c).isspace()],
-            "writers": scan_writers(ps.trees, cfg_fields), "docstring_literals": scan_docstring_literals(),
+            "writers": scan_writers(ps.trees, cfg_fields), "docstring_literals": scan_docstring_literals(), "metadata_reads": scan_metadata_reads(),
             "derived_globals": {k: sorted(v) for k, v in ps.derived_globals.items()},
             "project_derived": {k: sorted(v) for k, v in ps.project_derived.items()}}
 
@@ -680,6 +748,9 @@ def generate(d):
     L.append("(* every {{ expression }} a template places inside a triple-quoted Python literal: (template, expression) *)\n"
              "Definition gen_docstring_literals : list (list N * list N) := [\n" +
              ";\n".join("  (%s, %s)  (* %s:%d %s *)" % (coq_str(f), coq_str(e), cmt(f), ln, cmt(e)) for f, e, ln in d["docstring_literals"]) + "\n].\n\n")
+    L.append("(* every free variable (with attribute chain) a metadata template reads: (template, expression) *)\n"
+             "Definition gen_metadata_reads : list (list N * list N) := [\n" +
+             ";\n".join("  (%s, %s)  (* %s: %s *)" % (coq_str(f), coq_str(e), cmt(f), cmt(e)) for f, e in d["metadata_reads"]) + "\n].\n\n")
     L.append("(* code points c with chr(c).isspace() in the interpreter that runs the generator (str.strip() strips exactly these) *)\n"
              "Definition gen_py_space : list N := [" + "; ".join(str(c) for c in d["py_space"]) + "]%N.\n")
     return "".join(L)
